@@ -505,10 +505,29 @@ class Interp:
         from multiprocessing.connection import wait as mpwait
         ready_before = bool(mpwait([p.sentinel], 0)) if o.get("probe_before") else None
         alive_truth_before = k.procs[p.pid].alive
+        seen = []
+        pollers = []
+        for n in range(o.get("pollers", 0)):
+            # other threads of the parent look at the same child while the main thread joins it
+            def poll_loop(n=n):
+                for _ in range(400):
+                    v = p.exitcode
+                    if v is not None:
+                        seen.append((n, v, k.procs[p.pid].alive))
+                        return
+                    if not p.is_alive() and k.procs[p.pid].alive:
+                        seen.append((n, "not-alive-while-alive", True))
+                        return
+                    rt.RT.sched.sleep(0.002)
+            t = threading.Thread(target=poll_loop, name="poller-%d" % n)
+            t.start()
+            pollers.append(t)
         p.join()
+        for t in pollers:
+            t.join()
         ready_after = bool(mpwait([p.sentinel], 0))
         st = k.procs[p.pid].status
-        return dict(pid=p.pid, exitcode=p.exitcode, truth=list(st) if st else None, ready_before=ready_before,
+        return dict(pid=p.pid, exitcode=p.exitcode, truth=list(st) if st else None, ready_before=ready_before, seen=seen,
                     alive_truth_before=alive_truth_before, ready_after=ready_after, is_alive=p.is_alive())
 
     def op_sync_make(self, th, o):
